@@ -52,6 +52,29 @@ BASELINES = ["StreamRandomSampling", "PeriodicSampling"]
 NEEDS_FREQ = ["StreamProbabilisticAL"]
 
 
+def variant_kwargs(name, seed):
+    """Non-default constructor parameters (deterministic in `seed`): every second object keeps the defaults."""
+    r = np.random.RandomState(int(seed) % (2**31 - 1))
+    if r.rand() < 0.4:
+        return {}
+    table = {
+        "StreamRandomSampling": {"allow_exceeding_budget": [True, False, False]},
+        "SplitBudgetManager": {"v": [0.1, 0.5, 0.9], "theta": [1.0, 0.6], "s": [0.01, 0.2]},
+        "Split": {},
+        "VariableUncertaintyBudgetManager": {"theta": [1.0, 0.5], "s": [0.01, 0.2, 0.5]},
+        "RandomVariableUncertaintyBudgetManager": {"delta": [1.0, 0.1, 3.0], "theta": [1.0, 0.7], "s": [0.01, 0.3]},
+        "DensityBasedSplitBudgetManager": {"delta": [1.0, 0.2], "theta": [1.0, 0.5], "s": [0.01, 0.3]},
+        "BalancedIncrementalQuantileFilter": {"w_tol": [50, 3, 200.0]},
+        "StreamProbabilisticAL": {"prior": [0.001, 1.0], "m_max": [2, 1, 3]},
+        "StreamDensityBasedAL": {"window_size": [100, 3, 8]},
+    }
+    if name.startswith("CognitiveDual"):
+        opts = {"density_threshold": [1, 2], "cognition_window_size": [10, 3, 6]}
+    else:
+        opts = table.get(name, {})
+    return {k: v[r.randint(len(v))] for k, v in opts.items()}
+
+
 def make_bm(name, budget, w, seed, **extra):
     cls = getattr(B, name)
     params = inspect.signature(cls.__init__).parameters
